@@ -282,7 +282,8 @@ class Session:
     form = op.get('_form', 'tuple')
     scope, sel, arg = op['scope'], op['sel'], op['arg']
     if form == 'macro_text':
-      gin.parse_config(scope + ' = ' + to_literal(op['val']))
+      kw = {'skip_unknown': op['_skip']} if op.get('_skip') else {}
+      gin.parse_config(scope + ' = ' + to_literal(op['val']), **kw)
       return None
     if form == 'macro_key':
       gin.bind_parameter('%' + scope, decode(op['val'], gin))
@@ -293,9 +294,12 @@ class Session:
     elif form == 'str':
       gin.bind_parameter((scope + '/' if scope else '') + sel + '.' + arg, decode(op['val'], gin))
     elif form == 'text':
-      gin.parse_config((scope + '/' if scope else '') + sel + '.' + arg + ' = ' + to_literal(op['val']))
+      # `_skip`: the same parse with skip_unknown switched on; everything named is known, so nothing changes
+      kw = {'skip_unknown': op['_skip']} if op.get('_skip') else {}
+      gin.parse_config((scope + '/' if scope else '') + sel + '.' + arg + ' = ' + to_literal(op['val']), **kw)
     elif form == 'block':
-      gin.parse_config((scope + '/' if scope else '') + sel + ':\n  ' + arg + ' = ' + to_literal(op['val']) + '\n')
+      kw = {'skip_unknown': op['_skip']} if op.get('_skip') else {}
+      gin.parse_config((scope + '/' if scope else '') + sel + ':\n  ' + arg + ' = ' + to_literal(op['val']) + '\n', **kw)
     else:
       raise AssertionError(form)
     return None
